@@ -29,6 +29,11 @@ RULE = ("profile objects are generated classes whose methods are decorated with 
         "the same kind and mask on the same profile instance) with the user's in-place edits grid[k] = p / grid[k, c] = v between calls and returned "
         "grids fed back as inputs, each call compared with model and specification on the contents current at that moment plus the array read "
         "back after the call; whole histories scaled to units 2^-40, 2^-27, 2^34 (tolerance 1e-9 * unit). "
+        "Phase 3: every stream also with SUBCLASS instances of the accepted classes (aa.Grid2DIrregularUniform direct / from_grid_sparse_uniform_upscale, "
+        "harness-defined subclasses of Grid2D / Grid2DIrregular / Grid1D / Grid2DIrregularUniform / ndarray and subclasses of those; directed sweep over "
+        "stream x class x flavour), the observed MRO goes into the Coq case; list results as list-subclass instances, values as autoarray structures; "
+        "calls by position / by keyword, with further keyword (and, through project_grid / relocate, positional) arguments that must reach the method "
+        "as the same objects; histories over grids of different kinds on the same profile objects, also the same method + attributes on both in turn. "
         "Non-trivial = at least 2 coordinates reach the function (histories: always); distinct = distinct JSON input.")
 EXHAUSTIVE = {}
 TRUSTED = ["hand-written Gallina model coq/Model/C17.v, tied to /repo by this correspondence run: both the grid the user function "
